@@ -295,3 +295,63 @@ func (w *World) InLib(fn *ssa.Function) bool {
 	}
 	return p == w.SRoot || p == w.SFP
 }
+
+// LoadAny loads arbitrary packages from a directory (used for the positive-control snippets under /verif/selftest).
+func LoadAny(dir string, patterns ...string) (*ssa.Program, []*ssa.Package, []*packages.Package, error) {
+	env := append(os.Environ(), "GOWORK=off", "GOFLAGS=-mod=mod", "GOPROXY=off", "GOSUMDB=off", "GOTOOLCHAIN=local", "CGO_ENABLED=0")
+	cfg := &packages.Config{Mode: packages.LoadAllSyntax, Dir: dir, Env: env}
+	pkgs, err := packages.Load(cfg, patterns...)
+	if err != nil {
+		return nil, nil, nil, err
+	}
+	for _, p := range pkgs {
+		for _, e := range p.Errors {
+			return nil, nil, nil, fmt.Errorf("selftest package %s: %s", p.PkgPath, e)
+		}
+	}
+	prog, sp := ssautil.AllPackages(pkgs, ssa.InstantiateGenerics)
+	prog.Build()
+	return prog, sp, pkgs, nil
+}
+
+// FuncsOf lists the source functions (incl. methods, closures) of the given SSA packages.
+func FuncsOf(prog *ssa.Program, pkgs ...*ssa.Package) []*ssa.Function {
+	var out []*ssa.Function
+	seen := map[*ssa.Function]bool{}
+	var add func(fn *ssa.Function)
+	add = func(fn *ssa.Function) {
+		if fn == nil || seen[fn] {
+			return
+		}
+		seen[fn] = true
+		if fn.Blocks != nil {
+			out = append(out, fn)
+		}
+		for _, a := range fn.AnonFuncs {
+			add(a)
+		}
+	}
+	for _, sp := range pkgs {
+		if sp == nil {
+			continue
+		}
+		for _, m := range sp.Members {
+			switch m := m.(type) {
+			case *ssa.Function:
+				add(m)
+			case *ssa.Type:
+				for _, T := range []types.Type{m.Type(), types.NewPointer(m.Type())} {
+					ms := prog.MethodSets.MethodSet(T)
+					for i := 0; i < ms.Len(); i++ {
+						fn := prog.MethodValue(ms.At(i))
+						if fn != nil && fn.Synthetic == "" && fn.Pkg == sp {
+							add(fn)
+						}
+					}
+				}
+			}
+		}
+	}
+	sort.Slice(out, func(i, j int) bool { return out[i].String() < out[j].String() })
+	return out
+}
